@@ -18,6 +18,9 @@ def run(ctx):
     ctx.rule("R12.c", "_instantiate_param_obj returns a copy.copy of the class Parameter, gives it fresh watchers and re-copies every mutable-container slot other than default", floor=3)
     ctx.rule("R12.d", "every __set__ definition of a Parameter class carries @instance_descriptor; the wrapper delegates to the per-instance Parameter and returns", floor=4)
     ctx.rule("R12.g", "class-level assignment on a subclass copies the inherited Parameter into the subclass before setting (copy-on-write)", floor=1)
+    ctx.rule("R12.l", "instantiate=True is inherited whatever the Parameter types are: the superclass loop of __param_inheritance, interpreted abstractly on a superclass Parameter with "
+                      "instantiate True / False x the new Parameter's type being or not being related to it, sets param.instantiate iff the ancestor has it (otherwise a subclass that narrows the "
+                      "type shares the mutable default between the class and all instances)", floor=1)
     ctx.rule("R12.m", "setter model: Parameter.__set__ interpreted abstractly on every combination (576) of route x constant/readonly x validation outcome x identity x reference mode x watchers x batching agrees with the specification of this property (see checks/setter_model.py)", floor=1)
     ctx.rule("R12.k", "constructor model: Parameters._setup_params (with _instantiate_param) interpreted abstractly on 288 combinations of keywords x reference modes (plain value / reference with a value / reference without a value yet / asynchronous reference) x an unknown keyword: own copy of every instantiate=True default and pinned constants before any keyword is applied (and still there when a keyword assigns nothing), exactly the specified assignments, every reference and only references recorded", floor=1)
     ctx.not_decided += ["order-dependent histories (whether the per-instance copy existed before a class-level change) -- the rules make them irrelevant but the behavioural statement is not executed"]
@@ -171,6 +174,52 @@ def run(ctx):
     else:
         ctx.fail("R12.g", ms, sets[0], "a class-level assignment on a subclass sets the value on the parent's Parameter object (no copy-on-write): the parent class and its other subclasses change too",
                  key="%s::no-copy-on-write" % ms.qualname)
+
+    # ------------------------------------------------------------ R12.l
+    import itertools as _it
+    from engine.absint import Interp as _I, Obj as _O, Unsupported as _U
+    from engine.loader import AnalysisError as _AE
+    pi = ctx.repo.func(P + "ParameterizedMetaclass.__param_inheritance")
+    loops = [st for st in ast.walk(pi.node) if isinstance(st, ast.For) and any(isinstance(t, ast.Attribute) and t.attr == "instantiate" and isinstance(t.ctx, ast.Store) for t in ast.walk(st))]
+    ctx.require(loops, "__param_inheritance no longer has a loop that inherits `instantiate`")
+    loop = loops[0]
+    pname_var = next((x.id for x in ast.walk(loop) if isinstance(x, ast.Name) and x.id in pi.params and x.id != pi.params[0] and "name" in x.id), "param_name")
+    pvar = next((t.value.id for t in ast.walk(loop) if isinstance(t, ast.Attribute) and t.attr == "instantiate" and isinstance(t.ctx, ast.Store) and isinstance(t.value, ast.Name)), "param")
+    badi = None
+    for sup_inst, related in _it.product([True, False], repeat=2):
+        sp = _O("ancestor_parameter", instantiate=sup_inst, __kind__="Parameter")
+        newp = _O("new_parameter", instantiate=False, __kind__="Parameter")
+        sup_cls = _O("superclass")
+        sup_cls.attrs["__dict__"] = {"p": sp}
+
+        def hook_i(fn, args, kwargs, related=related):
+            if fn == "isinstance" and len(args) == 2:
+                return isinstance(args[0], _O) and args[0].attrs.get("__kind__") == "Parameter"
+            if fn == "type" and len(args) == 1:
+                return "<type of %s>" % getattr(args[0], "name", args[0])
+            if fn == "issubclass":
+                return related
+            return NotImplemented
+        it_i = _I(ctx.hier, call_hook=hook_i)
+        env_i = {loop.iter.id if isinstance(loop.iter, ast.Name) else "supers": [sup_cls], pname_var: "p", pvar: newp, "p_type": "<type of new_parameter>", "type_change": False,
+                 "mcs": _O("new_class")}
+        try:
+            it_i.choices, it_i.cursor, it_i.imprecise, it_i.notes = [], 0, False, []
+            it_i.exec(loop, env_i, pi)
+        except _U as e:
+            raise _AE("absint cannot interpret the instantiate-inheritance loop: %s -- R12.l cannot decide" % e)
+        ctx.abstract_cases += 1
+        if it_i.imprecise:
+            raise _AE("absint imprecise on the instantiate-inheritance loop (%s) -- R12.l cannot decide" % it_i.notes[:2])
+        if newp.attrs["instantiate"] is not sup_inst:
+            badi = (sup_inst, related, newp.attrs["instantiate"])
+    if badi:
+        ctx.fail("R12.l", pi, loop, "an ancestor Parameter with instantiate=%s and a new Parameter whose type is %s to it: the new Parameter ends up with instantiate=%s -- "
+                                    "a subclass that re-declares the parameter with a narrower type keeps the mutable default but no longer copies it per instance" % (
+                                        badi[0], "related" if badi[1] else "unrelated", badi[2]), key=pi.qualname + "::instantiate-inheritance",
+                 input="class A: x = Parameter([1], instantiate=True); class B(A): x = ListSelector(objects=[..]) -> B().x is B.x")
+    else:
+        ctx.ok("R12.l", pi, loop, "4/4: instantiate is inherited from the ancestor whatever the type relation")
 
     # model-level rule, run last (see DESIGN §10)
     from checks import setter_model
